@@ -63,7 +63,7 @@ def perform(obj, op, a, args, vm):
     elif op == "symmetric_difference_update":
         obj.symmetric_difference_update(list(cargs[0]) if a[0] == 1 else set(cargs[0]))
     elif op in ("ior", "iand", "isub", "ixor"):
-        arg = frozenset(cargs[0]) if a[0] == 1 else set(cargs[0])
+        arg = frozenset(cargs[0]) if a[0] == 1 else (list(cargs[0]) if a[0] == 2 else set(cargs[0]))
         if op == "ior":
             obj |= arg
         elif op == "iand":
@@ -171,7 +171,7 @@ def history_lines(seed, ntraces, steps):
                 args = [rs() for _ in range(rnd.randint(0, 3))]
             elif op in ("ior", "iand", "isub", "ixor", "symmetric_difference_update"):
                 args = [rs()]
-                a[0] = rnd.randint(0, 1)
+                a[0] = rnd.choice([0, 0, 1, 2]) if op != "symmetric_difference_update" else rnd.randint(0, 1)
             elif op == "copyadd":
                 a = [rnd.randint(0, 2), rnd.choice([3, 11, 99, 1])]
             r = execute(cur, op, a, args, vm)
